@@ -1,13 +1,56 @@
 /-
-Oracle ops for the `dup` family.  Owned by the slice that models it; see AGENT_GUIDE.md.
+Oracle ops for the `dup` family (C08): the `uintSet` and `objectNamespace` models.
+
+  dup uintset <tok>…     tok = `<n>` insert n | `h<n>` has n      → one char per token: 1/0
+  dup ns <tok>…          tok = `<hex>` InsertUnquoted (`-` = empty name) | `rm` RemoveLast
+                         → two chars per token: result (1/0, `-` for rm) and mode after the op (L linear / M map),
+                           then ` <length>` and ` <hex>` for every name held, in order
 -/
 import JsonV.Oracle.Util
+import JsonV.Model.UintSet
+import JsonV.Model.Namespace
 
 namespace JsonV.Oracle.Dup
-open JsonV JsonV.Oracle
+open JsonV JsonV.Model JsonV.Oracle
+
+def uintsetOps : List String → UintSet → List Char → Option (List Char)
+  | [], _, acc => some acc.reverse
+  | t :: ts, s, acc =>
+    if t.startsWith "h" then
+      match (t.drop 1).toNat? with
+      | some n => uintsetOps ts s ((if s.has n then '1' else '0') :: acc)
+      | none => none
+    else
+      match t.toNat? with
+      | some n => let r := s.insert n; uintsetOps ts r.1 ((if r.2 then '1' else '0') :: acc)
+      | none => none
+
+def modeChar (ns : Namespace) : Char := if ns.usesMap then 'M' else 'L'
+
+def nsOps : List String → Namespace → List Char → Option (Namespace × List Char)
+  | [], ns, acc => some (ns, acc.reverse)
+  | t :: ts, ns, acc =>
+    if t == "rm" then
+      let ns' := ns.removeLast
+      nsOps ts ns' (modeChar ns' :: '-' :: acc)
+    else
+      match bytesOfHex t with
+      | some name =>
+        let r := ns.insert name
+        nsOps ts r.1 (modeChar r.1 :: (if r.2 then '1' else '0') :: acc)
+      | none => none
 
 def handle (op : String) (args : List String) : String :=
-  match op, args with
-  | _, _ => "ERR unimplemented"
+  match op with
+  | "uintset" =>
+    match uintsetOps args UintSet.empty [] with
+    | some cs => String.ofList cs
+    | none => badArgs
+  | "ns" =>
+    match nsOps args Namespace.empty [] with
+    | some (ns, cs) =>
+      ns.names.foldl (fun acc n => acc ++ " " ++ hexOfBytes n) (String.ofList cs ++ " " ++ toString ns.length)
+    | none => badArgs
+  | _ => "ERR unimplemented"
 
 end JsonV.Oracle.Dup
